@@ -90,7 +90,7 @@ type env struct {
 }
 
 func newEnv(cancellable bool) *env {
-	e := &env{ctx: context.Background()}
+	e := &env{ctx: context.Background(), stats: make([]*stubStat, 0, 3)}
 	if cancellable {
 		e.ctx, e.cancel = context.WithCancel(context.Background())
 	}
